@@ -86,15 +86,57 @@ type directInfo struct {
 	ownFresh func(ssa.Value) bool // the slice value can only refer to an array allocated by this activation
 }
 
+type fieldKey struct {
+	a *ssa.Alloc
+	f int
+}
+
+// ownedObject: the allocation is only accessed field by field (loads and stores) and otherwise only returned: no other
+// code can have stored into its fields while this activation runs.
+func ownedObject(a *ssa.Alloc) bool {
+	if a.Referrers() == nil {
+		return false
+	}
+	for _, r := range *a.Referrers() {
+		switch r := r.(type) {
+		case *ssa.FieldAddr:
+			if r.Referrers() == nil {
+				return false
+			}
+			for _, rr := range *r.Referrers() {
+				switch rr := rr.(type) {
+				case *ssa.Store:
+					if rr.Addr != r {
+						return false
+					}
+				case *ssa.UnOp, *ssa.DebugRef:
+				default:
+					return false
+				}
+			}
+		case *ssa.Return, *ssa.DebugRef:
+		default:
+			return false
+		}
+	}
+	return true
+}
+
 // ownFreshSlices: a slice value refers to an array allocated by this activation when it is nil, a make, an append /
 // reslice of such a value, or the contents of a non-escaping local all of whose assignments are such values.
 func ownFreshSlices(fn *ssa.Function, fr *Frame) func(ssa.Value) bool {
 	stores := map[*ssa.Alloc][]ssa.Value{}
+	fieldStores := map[fieldKey][]ssa.Value{}
 	for _, b := range fn.Blocks {
 		for _, in := range b.Instrs {
 			if st, ok := in.(*ssa.Store); ok {
 				if a, ok := st.Addr.(*ssa.Alloc); ok {
 					stores[a] = append(stores[a], st.Val)
+				}
+				if fa, ok := st.Addr.(*ssa.FieldAddr); ok {
+					if a, ok := fa.X.(*ssa.Alloc); ok {
+						fieldStores[fieldKey{a, fa.Field}] = append(fieldStores[fieldKey{a, fa.Field}], st.Val)
+					}
 				}
 			}
 		}
@@ -127,6 +169,18 @@ func ownFreshSlices(fn *ssa.Function, fr *Frame) func(ssa.Value) bool {
 				return get(v.Call.Args[0])
 			}
 		case *ssa.UnOp:
+			if fa, isF := v.X.(*ssa.FieldAddr); isF && v.Op == token.MUL {
+				// a slice / map kept in a field of an object this activation allocated and only hands out by returning it
+				if a, isA := fa.X.(*ssa.Alloc); isA && ownedObject(a) {
+					for _, sv := range fieldStores[fieldKey{a, fa.Field}] {
+						if !get(sv) {
+							return false
+						}
+					}
+					return true
+				}
+				return false
+			}
 			if a, isA := v.X.(*ssa.Alloc); isA && v.Op == token.MUL && fr.isCell[a] {
 				_, isSl := types.Unalias(deref(a.Type())).Underlying().(*types.Slice)
 				_, isMp := types.Unalias(deref(a.Type())).Underlying().(*types.Map)
